@@ -71,13 +71,14 @@ def dims_for(shape):
     return ["y", "x"][-len(shape):] if len(shape) <= 2 else ["t", "y", "x"]
 
 
-def make_dataset(path, shape, variables, crs=True, packed=False):
+def make_dataset(path, shape, variables, crs=True, packed=False, classic=False):
     """a dataset with coordinate variables, an optional CRS variable and the given data variables (name -> masked array)"""
     from netCDF4 import Dataset
     import numpy as np
 
     names = dims_for(shape)
-    with Dataset(path, "w") as ds:
+    # (a template may be a classic-model file - GDAL writes those -, which has no 64-bit integer type)
+    with Dataset(path, "w", **({"format": "NETCDF4_CLASSIC"} if classic else {})) as ds:
         for nm, n in zip(names, shape):
             ds.createDimension(nm, n)
             if packed and nm == "y":        # a coordinate stored packed (CF scale_factor / add_offset): readers see the unpacked values
@@ -92,7 +93,8 @@ def make_dataset(path, shape, variables, crs=True, packed=False):
             c = ds.createVariable("crs", "i4", ())
             c.grid_mapping_name = "latitude_longitude"
         for vn, arr in variables.items():
-            v = ds.createVariable(vn, "i8" if arr.dtype.kind == "i" else "f8", names, fill_value=(-2 ** 40 if arr.dtype.kind == "i" else 9.96921e36))
+            isint = arr.dtype.kind == "i" and not classic
+            v = ds.createVariable(vn, "i8" if isint else "f8", names, fill_value=(-2 ** 40 if isint else 9.96921e36))
             if crs:
                 v.grid_mapping = "crs"
                 v.esri_pe_string = "GEOGCS[x]"
@@ -145,9 +147,11 @@ def run_case(job):
             if case["dt"]:
                 extra.append(("DataType", case["dt"]))
             rec["obs"].append(read(p, "R", "in.nc", "v", extra))
+            # the same variable read once more in the same process, with the default options: what an earlier read did to its own result is its own business
+            rec["again"] = read(p, "R2", "in.nc", "v", [])
         else:
             gs = case["grids"]
-            make_dataset(os.path.join(wd, "tmpl.nc"), gs[0][0], {"t": to_array(gs[0])}, crs=(jid % 2 == 0), packed=(jid % 4 == 1))
+            make_dataset(os.path.join(wd, "tmpl.nc"), gs[0][0], {"t": to_array(gs[0])}, crs=(jid % 2 == 0), packed=(jid % 4 == 1), classic=(jid % 5 == 2))
             p = Program(libraries=LIBS, working_dir=wd)
             names = []
             for i, g in enumerate(gs):
